@@ -200,18 +200,21 @@ theorem bump_realloc_sound {s s' : State} (hi : Inv s) {off n p : Nat}
     obtain ⟨_, _, _, h4, _⟩ := hi.blk b hb
     omega
 
-/-- `realloc` is refused only if the block is not the most recent one or the rounded size does not
-fit between the block's start and the end of the buffer. -/
+/-- `realloc` is refused only if the pointer is not the most recent block, that block has been
+freed (`top ≤ last`), or the rounded size does not fit between the block's start and the end of
+the buffer. -/
 theorem bump_realloc_fail_iff {s : State} (hi : Inv s) {off n : Nat} (hn : n < W) :
-    (realloc s off n).2 = none ↔ off ≠ s.last ∨ s.cap < s.last + ru8 (if n = 0 then 1 else n) := by
+    (realloc s off n).2 = none ↔
+      off ≠ s.last ∨ s.top ≤ s.last ∨ s.cap < s.last + ru8 (if n = 0 then 1 else n) := by
   have hrs := realSize_spec n hn
   have hcw := hi.capW
   rcases realloc_result s off n with ⟨hg, hm⟩ | ⟨hg, hm⟩
   · rw [hm]
     simp only [true_iff]
-    rcases hg with hg | hg
+    rcases hg with hg | hg | hg
     · left; exact hg
-    · right
+    · right; left; exact hg
+    · right; right
       rcases hrs with ⟨h1, h2⟩ | ⟨h1, h2, _, _⟩
       · have h0 : n ≠ 0 := by unfold W at h2; omega
         simp only [h0, if_false]
@@ -221,6 +224,23 @@ theorem bump_realloc_fail_iff {s : State} (hi : Inv s) {off n : Nat} (hn : n < W
   · rw [hm]
     simp only [reduceCtorEq, false_iff]
     rcases hrs with ⟨h1, h2⟩ | ⟨h1, h2, _, _⟩ <;> omega
+
+/-- For a block that is live (the API's contract for `realloc`) the refusal condition is the
+documented one: not the most recent block, or the rounded size does not fit. -/
+theorem bump_realloc_live_fail_iff {s : State} (hi : Inv s) {b : Block} (hb : b ∈ s.live) {n : Nat} (hn : n < W) :
+    (realloc s b.off n).2 = none ↔ b.off ≠ s.last ∨ s.cap < s.last + ru8 (if n = 0 then 1 else n) := by
+  rw [bump_realloc_fail_iff hi hn]
+  obtain ⟨_, _, h3, _, _⟩ := hi.blk b hb
+  constructor
+  · rintro (h | h | h)
+    · exact Or.inl h
+    · by_cases hl : b.off = s.last
+      · omega
+      · exact Or.inl hl
+    · exact Or.inr h
+  · rintro (h | h)
+    · exact Or.inl h
+    · exact Or.inr (Or.inr h)
 
 /-- Freeing the most recent block makes its space available again: the top returns to the block's
 start, so the same request is granted again at the same address. -/
@@ -245,6 +265,23 @@ theorem bump_free_last_reclaims {s : State} (hi : Inv s) {b : Block} (hb : b ∈
     exact this hxid
   subst hxb
   simp [hl]
+
+/-- Once the most recent block has been freed it can no longer be resized: `realloc` of its
+address is refused (whatever the size) and changes nothing, until the next allocation. -/
+theorem bump_realloc_after_free_refused {s : State} (hi : Inv s) {b : Block} (hb : b ∈ s.live)
+    (hl : b.off = s.last) (n : Nat) :
+    realloc (free s b.id) b.off n = (free s b.id, none) := by
+  obtain ⟨ht, hla⟩ := bump_free_last_reclaims hi hb hl
+  rcases realloc_result (free s b.id) b.off n with ⟨_, hm⟩ | ⟨hg, _⟩
+  · exact hm
+  · exact absurd (Or.inr (Or.inl (by omega))) hg
+
+/-- Nor can anything be resized on a fresh allocator. -/
+theorem bump_realloc_fresh_refused (base cap off n : Nat) :
+    realloc (init base cap) off n = (init base cap, none) := by
+  rcases realloc_result (init base cap) off n with ⟨_, hm⟩ | ⟨hg, _⟩
+  · exact hm
+  · exact absurd (Or.inr (Or.inl (by simp [init]))) hg
 
 /-- `aligned_alloc`: a granted block is aligned as requested (and to 8), inside the buffer and
 disjoint from every live block. -/
